@@ -299,7 +299,27 @@ def squares(r):
     return s
 
 
-GENS = {"uniform": uniform, "iopressure": iopressure, "squares": squares, "macro": macro, "pressure": pressure, "affine": affine, "bigconst": bigconst,
+def longrun(r):
+    """long runs of identical commands (beyond 255/256/65535) observed through tests that look at
+    more than the low 8 bits"""
+    n = r.choice([254, 255, 256, 257, 300, 511, 512, 513, 1000])
+    c = r.choice('+-')
+    s = c * n
+    k = r.below(4)
+    if k == 0:
+        s += '[>+.<[-]]>.'            # non-zero test
+    elif k == 1:
+        s += '[>+<' + ('-' if c == '+' else '+') + ']>.'   # count the value (low 8 bits of the count)
+        if r.random() < 0.5:
+            s = c * n + '>' + '+' * 3 + '<[>[>+>+<<-]>>[<<+>>-]<<<' + ('-' if c == '+' else '+') + ']>>.'
+    elif k == 2:
+        s += '>' + c * r.choice([255, 256, 257]) + '<[>+<' + ('-' if c == '+' else '+') + ']>.'
+    else:
+        s += '.' + '>' * r.choice([255, 256, 300]) + '+.' + '<' * r.choice([255, 256, 300]) + '.'
+    return s
+
+
+GENS = {"uniform": uniform, "longrun": longrun, "iopressure": iopressure, "squares": squares, "macro": macro, "pressure": pressure, "affine": affine, "bigconst": bigconst,
         "roam": roam, "diverge": diverge}
 
 
